@@ -74,9 +74,42 @@ def text_sink(key=None):
   return SizedSink() if pick else io.StringIO()
 
 
+STALE_FILLER = ("9 9.9999 9.9999 9.9999\n" * 24000).encode()   # ~0.5 MB: what an earlier, longer table left at the path
+OPEN_FP_WRITES = [0]
+
+
+def prefill(path):
+  """Leave the remains of an earlier, longer table at `path` (seeded changes C03r10 / C12r10: a destination that is
+  opened without being emptied keeps the old tail behind the new table)."""
+  with open(path, "wb") as f:
+    f.write(STALE_FILLER)
+
+
+def write_via_open_fp(tab):
+  """tab.open_fp(path) + tab.write(fp) onto a path that already holds a longer file; returns what the path holds afterwards."""
+  binary = tab.target in BINARY_TARGETS
+  fd, path = tempfile.mkstemp(prefix="prev-", dir=os.environ.get("VERIF_TMP"))
+  os.close(fd)
+  try:
+    prefill(path)
+    with tab.open_fp(path) as fp:
+      tab.write(fp)
+    OPEN_FP_WRITES[0] += 1
+    with open(path, "rb" if binary else "r", **({} if binary else {"newline": ""})) as fp:
+      return fp.read()
+  finally:
+    os.unlink(path)
+
+
 def write_tab(tab, fp=None):
+  import zlib
+  key = (tab.target, getattr(tab, "nr", 0), getattr(tab, "cutoff", 0))
+  if fp is None and hasattr(tab, "open_fp") and zlib.crc32(repr(key).encode()) % 4 == 1:
+    # every fourth destination (by key, so that a replayed case gets the same one) is the documented
+    # open_fp(path) onto a path where a longer table was written before
+    return write_via_open_fp(tab)
   if fp is None:
-    fp = io.BytesIO() if tab.target in BINARY_TARGETS else text_sink((tab.target, getattr(tab, "nr", 0), getattr(tab, "cutoff", 0)))
+    fp = io.BytesIO() if tab.target in BINARY_TARGETS else text_sink(key)
   tab.write(fp)
   return fp.getvalue()
 
@@ -93,7 +126,7 @@ def file_variant(text):
   return text
 
 
-def run_potable(args, text=None, tmpdir=None, hashseed="0", timeout=120, infile_name="model.aspot", extra_env=None, stdin=None):
+def run_potable(args, text=None, tmpdir=None, hashseed="0", timeout=120, infile_name="model.aspot", extra_env=None, stdin=None, stale_out=False):
   """Run the potable CLI of the tree under test in a subprocess.
   Returns dict(rc, out, err, outfile_bytes or None, outfile_exists)."""
   tmpdir = tmpdir or tempfile.mkdtemp(prefix="potable-", dir=os.environ.get("VERIF_TMP"))
@@ -111,6 +144,8 @@ def run_potable(args, text=None, tmpdir=None, hashseed="0", timeout=120, infile_
   outpath = os.path.join(tmpdir, "OUT.table")
   if os.path.exists(outpath):
     os.unlink(outpath)
+  if stale_out:
+    prefill(outpath)
   argv = [outpath if a == "@OUT" else a for a in argv]
   env = bootstrap.child_env(extra_env, hashseed=hashseed)
   r = subprocess.run(bootstrap.potable_cmd() + argv, env=env, cwd=tmpdir, capture_output=True, timeout=timeout,
